@@ -697,9 +697,15 @@ fn main() {
         let out = std::io::stdout();
         for r in reqs.as_array().expect("driver: ops must be an array") {
             let resp = drv.run(r);
+            let failed = resp.get("ok").and_then(|x| x.as_bool()) != Some(true);
             let mut o = out.lock();
             let _ = writeln!(o, "{}", resp);
             let _ = o.flush();
+            if failed {
+                // a caller stops at the first error: the remaining requests of the sequence
+                // (further chunks, the commit) are not issued; open handles are dropped
+                break;
+            }
         }
         return;
     }
